@@ -256,7 +256,7 @@ theorem callHook_false_called (u : Nat) (hn : String) (s : State) (h : (callHook
     have hb : HookCalled (bumpHook u hn (((getW u s).1.hookCalls.lookup hn).getD 0) (getW u s).2).2 u hn := by
       unfold HookCalled
       simp only [getW, bumpHook, modW, modS]
-      rw [find?_map_key (·.uid) s.ws _ (by intro w; split <;> rfl) u]
+      rw [find_map_key (·.uid) s.ws _ (by intro w; split <;> rfl) u]
       cases hf : s.ws.find? (fun w => decide (w.uid = u)) with
       | none =>
         -- no such watcher object: `getW` gives the default watcher, which has no hooks
